@@ -42,6 +42,15 @@ def cases(tier, seed):
         if d_["pnoise"]:
             d2 = dict(d_, name=d_["name"] + "-noise2", pnoise=[[k_, v_ * 4.0 + 0.125 * i_] for i_, (k_, v_) in enumerate(d_["pnoise"])])
             defs.append(d2)
+    for d_ in defs[1:27:5]:  # precise actuators / a diffuse prior: magnitudes far from 1
+        if d_["pnoise"]:
+            tiny = dict(d_, name=d_["name"] + "-tinynoise", pnoise=[[k_, 2.0 ** -(24 + i_)] for i_, (k_, v_) in enumerate(d_["pnoise"])])
+            n_ = len(d_["state"])
+            dense = cov_menu(n_, "quick")[2][1]
+            yield {"def": tiny, "P": [[v_ * 2.0 ** -22 for v_ in r_] for r_ in dense], "Pname": "dense*2^-22", "seed": seed, "per_symbol": 2,
+                   "dts": [0.125, -0.25], "abs_scale": True}
+            yield {"def": d_, "P": [[v_ * 2.0 ** 30 for v_ in r_] for r_ in dense], "Pname": "dense*2^30", "seed": seed, "per_symbol": 2,
+                   "dts": [0.125, -0.25]}
     for d in defs:
         n = len(d["state"])
         for pname, P in cov_menu(n, tier):
@@ -83,6 +92,8 @@ def eval_case(case):
             skipped += 1
             continue
         scale = float(max(R.maxabs(Pn), R.maxabs(Pm), 1))
+        if case.get("abs_scale"):
+            scale = float(max(R.maxabs(Pn), R.maxabs(Pm)))
         for cse, ekf in ekfs.items():
             state = ekf.State(**{s: env[s] for s in ref.st})
             control = ekf.Control(**{s: env[s] for s in ref.ct})
